@@ -5,8 +5,8 @@ def jobs(tier, parts=None):
         # partition by the opcode's high nibble: 1 = single-operand/RETI, 2,3 = jumps, 4..15 = double-operand instructions
         js.append(vp.Job("msp430_ref.op%x" % part, "msp430_ref.cpp", {"PART": part}, max_paths=500000, timeout=420 if tier == "quick" else 1500,
                          allow_partial=True, min_completed=4, max_violations=60))
-    js.append(vp.Job("msp430_run.ret", "msp430_run.cpp", {}, max_paths=100000, timeout=420, min_completed=2))
-    js.append(vp.Job("msp430_run.break_io", "msp430_run.cpp", {"BREAK_IO": None}, max_paths=100000, timeout=420, min_completed=2))
+    js.append(vp.Job("msp430_run.ret", "msp430_run.cpp", {}, max_paths=100000, timeout=420, min_completed=2, allow_partial=True))
+    js.append(vp.Job("msp430_run.break_io", "msp430_run.cpp", {"BREAK_IO": None}, max_paths=100000, timeout=420, min_completed=2, allow_partial=True))
     return js
 def main(tier):
     return vp.check_property("C14", tier, jobs(tier),
